@@ -25,6 +25,12 @@ func NewCond(l Locker) *Cond { return sync.NewCond(l) }
 // holds) and returns 1; it returns 0 if the caller is not a scheduled thread, 2 if the world is being torn down.
 var Hook func(op string, enabled func() bool) int
 
+// PreLock, if installed by the harness (nil by default: no effect), is called at the entry of every Lock/RLock,
+// before the lock is tried. A harness that wants "about to take a lock" to be a scheduling point even when the lock
+// is free (so that everything a thread evaluated before Lock() can be separated from the critical section) parks the
+// calling thread here.
+var PreLock func(op string)
+
 type RWMutex struct {
 	g sync.Mutex
 	c *sync.Cond
@@ -72,6 +78,9 @@ func (m *RWMutex) TryRLock() bool {
 }
 
 func (m *RWMutex) Lock() {
+	if h := PreLock; h != nil {
+		h("lock")
+	}
 	for !m.TryLock() {
 		switch park("lock", m.canLock) {
 		case 1:
@@ -90,6 +99,9 @@ func (m *RWMutex) Lock() {
 }
 
 func (m *RWMutex) RLock() {
+	if h := PreLock; h != nil {
+		h("rlock")
+	}
 	for !m.TryRLock() {
 		switch park("rlock", m.canRLock) {
 		case 1:
